@@ -367,3 +367,21 @@ package iscp
 //@   loop 1 invariant fresh(res) && fresh(resIDs) && len(res) == rangeindex + 1 && rangeindex < len(dpgs)
 //@   loop 1 invariant forall(i, int, imp(0 <= i && i <= rangeindex, res[i] != nil && fresh(res[i]) && labelOK(res[i], dpgs[i], revAliases)))
 //@   loop 1 invariant forall(i, int, imp(0 <= i && i <= rangeindex, pointsOK(res[i], dpgs[i])))
+
+// flush (the only place where a chunk is cut): an empty buffer cuts nothing, stores nothing,
+// sends nothing and consumes no sequence number; otherwise exactly one chunk is cut from the
+// whole buffer: numbered old+1, stored once under (u.ID, that number), handed to exactly one
+// sender goroutine whose result channel is registered under that number, the buffer and its
+// counters are empty afterwards and the running total grew by the buffered point count.
+//@ func (*Upstream).flush
+//@   props C01 C20
+//@   requires u.sequence != nil && u.sent != nil && u.eventDispatcher != nil && u.upstreamChunkResultChs != nil && ctx != nil
+//@   ghostvar stored int = 0
+//@   ghostvar started int = 0
+//@   after call sentStorage).Store: stored = stored + 1
+//@   after go sendChunkAndWaitAck: started = started + 1
+//@   assert call sentStorage).Store: arg1 == u.ID && arg2 == u.sequence.Current && u.sequence.Current == old(u.sequence.Current) + 1 && len(arg3) == old(len(u.sendBuffer))
+//@   assert go sendChunkAndWaitAck: stored == 1 && arg2 != nil && arg2.StreamChunk != nil && arg2.StreamChunk.SequenceNumber == u.sequence.Current && has(u.upstreamChunkResultChs, u.sequence.Current) && u.upstreamChunkResultChs[u.sequence.Current] == arg3
+//@   ensures imp(old(len(u.sendBuffer)) == 0, result == nil && stored == 0 && started == 0 && u.sequence.Current == old(u.sequence.Current) && unchanged(u.totalDataPoints))
+//@   ensures imp(old(len(u.sendBuffer)) > 0 && result == nil, stored == 1 && started == 1 && len(u.sendBuffer) == 0 && u.sendBufferDataPointsCount == 0 && u.sendBufferPayloadSize == 0)
+//@   ensures imp(old(len(u.sendBuffer)) > 0 && result == nil, u.sequence.Current == old(u.sequence.Current) + 1 && u.totalDataPoints == old(u.totalDataPoints) + old(u.sendBufferDataPointsCount))
